@@ -48,7 +48,7 @@ def cases(tier, seed):
     return out
 
 
-def _stats(ubm, n, s, o, frac):
+def _stats(ubm, n, s, o, frac, dup=False):
     rng = np.random.RandomState(4242)
     C, D = ubm.means.shape
     cent = np.asarray(ubm.means, float)
@@ -60,6 +60,15 @@ def _stats(ubm, n, s, o, frac):
         if frac and i % 2:
             st.n, st.sum_px, st.sum_pxx = st.n * 0.5, st.sum_px * 0.5, st.sum_pxx * 0.5
         out.append(st)
+    if dup:
+        # two pairs of sessions with bit-identical counts but different first-order statistics
+        for a_, b_ in ((0, 2), (1, 3)):
+            if b_ < len(out):
+                ratio = np.asarray(out[a_].n, float) / np.asarray(out[b_].n, float)
+                out[b_].sum_px = np.asarray(out[b_].sum_px, float) * ratio[:, None]
+                out[b_].sum_pxx = np.asarray(out[b_].sum_pxx, float) * ratio[:, None]
+                out[b_].n = np.array(out[a_].n, float)
+                out[b_].t = out[a_].t
     return out
 
 
@@ -84,7 +93,7 @@ def run_case(case):
     ubm = c11._ubm(c11.UBMS[case["ubm"]], s, o)
     C, D = ubm.means.shape
     y = np.array(LABELS[case["labels"]])
-    X = _stats(ubm, len(y), s, o, frac=case["labels"] % 2 == 1)
+    X = _stats(ubm, len(y), s, o, frac=case["labels"] % 2 == 1, dup=case["labels"] in (2, 3))
     mvec = np.asarray(ubm.means, float).ravel()
     var = np.asarray(ubm.variances, float).ravel()
     classes = sorted(set(y.tolist()))
@@ -194,6 +203,18 @@ def run_case(case):
         for nm in ("U", "V", "D"):
             c.close(np.asarray(getattr(f, nm), float), manual[nm], "fit_equals_manual", f"{nm} after fit(em_iterations={K}) from a {how} vs {K} manual E/M pairs per phase", tags,
                     rtol=1e-8, scale=float(np.abs(manual[nm]).max()) + 1e-9)
+    # history: the same machine object was trained on other statistics before; with the subspaces put back to the same
+    # start through the public setters, training again must give the same model as a fresh machine
+    f2 = _machine(case, ubm, s, K)
+    U0, V0, D0 = np.array(f2.U, float), np.array(f2.V, float), np.array(f2.D, float)
+    other = _stats(ubm, len(y), s * 1.0, o, frac=True)[::-1]
+    f2.fit(copy.deepcopy(other), y.copy())
+    f2.U, f2.V, f2.D = U0, V0, D0
+    f2.fit(copy.deepcopy(X), y.copy())
+    c.transitions += 2
+    for nm in ("U", "V", "D"):
+        c.close(np.asarray(getattr(f2, nm), float), manual[nm], "refit_equals_fresh", f"{nm} of a machine trained earlier on other statistics and reset through the setters vs a fresh machine", tags,
+                rtol=1e-8, scale=float(np.abs(manual[nm]).max()) + 1e-9)
     # fit with fewer iterations: the V phase hands over after exactly k pairs
     f1 = _machine(case, ubm, s, 1)
     f1.fit(copy.deepcopy(X), y.copy())
